@@ -245,3 +245,65 @@ kproof! { fn k05e_match_total_h3_o0() { match_total(false, false); } }
 kproof! { fn k05e_match_total_h3_o1() { match_total(false, true); } }
 kproof! { fn k05e_match_total_h4_o0() { match_total(true, false); } }
 kproof! { fn k05e_match_total_h4_o1() { match_total(true, true); } }
+
+// ---------------------------------------------------------------------------
+// K04n: the REAL match search and hop counting give the reference build's answer for the same text, cursor, parameters
+// and candidate lists (C04: window / start-of-file / 3-byte distance limits, nice-length cut-off, chain-depth accounting,
+// hop numbering are all part of the stored format: the reader replays them).  Two geometries: a short text with the
+// cursor anywhere, and a cursor 252 bytes into a 258-byte text with window_bits = 9, where the window limit
+// (2^9 - 262 + 1 = 251) lies inside the reachable distances.
+// ---------------------------------------------------------------------------
+fn matcher_equiv<const T: usize>(fixed_pos: Option<usize>, what: u8) {
+    let text: [u8; T] = kani::any();
+    let mut p = any_predictor_params();
+    if fixed_pos.is_some() { p.window_bits = 9; }
+    let pos: usize = match fixed_pos { Some(x) => x, None => kani::any() };
+    kani::assume(pos >= 1 && pos <= T - 3);
+    let off = if what == 1 { 1usize } else { 0 };
+    let dist: [[u32; 3]; 2] = kani::any();
+    let cnt: [u8; 2] = kani::any();
+    kani::assume(cnt[0] <= 3 && cnt[1] <= 3);
+    // the real chain only yields distances inside the text seen so far
+    let mut i = 0;
+    while i < 3 { kani::assume(dist[0][i] >= 1 && dist[0][i] as usize <= pos && dist[1][i] >= 1 && dist[1][i] as usize <= pos + 1); i += 1; }
+    let (a, b): (u32, u32) = match what {
+        0 => { kani::assume(p.max_chain >= 1); (0, p.max_chain) }
+        1 => {
+            let pl: u32 = kani::any();
+            kani::assume(pl >= 3 && pl <= 258 && (T - pos) as u32 >= pl + 2);
+            let d = if kani::any() { p.max_chain >> 2 } else { p.max_chain };
+            kani::assume(d >= 1);
+            (pl, d)
+        }
+        2 => {
+            let l: usize = kani::any(); let d: usize = kani::any();
+            kani::assume(valid_reference(&text[..], pos, l, d));
+            (l as u32, d as u32)
+        }
+        _ => {
+            let l: u32 = kani::any(); let h: u32 = kani::any();
+            kani::assume(l >= 3 && l <= 258 && l as usize <= T - pos && h >= 1 && h <= 8);
+            (l, h)
+        }
+    };
+    let _ = off;
+    let pf = flat_predictor_params(&p);
+    let x = super::verif_export::matcher_query(&text[..], pos as u32, &pf, &dist, &cnt, what, a, b);
+    let y = preflate_ref::hash_chain_holder::verif_export::matcher_query(&text[..], pos as u32, &pf, &dist, &cnt, what, a, b);
+    assert!(x[0] == y[0] && x[1] == y[1] && x[2] == y[2], "the match search / hop counting answers differently from the reference build");
+    kani::cover!(x[0] == 0, "a match / hop count / distance was returned");
+    kani::cover!(x[0] != 0, "no result");
+}
+macro_rules! k04n { ($name:ident, $t:expr, $pos:expr, $what:expr) => {
+    kproof! {
+        #[kani::stub(preflate_ref::preflate_error::PreflateError::add_context, crate::verif_common::stub_ref_add_context)]
+        fn $name() { matcher_equiv::<$t>($pos, $what); }
+    }
+} }
+k04n!(k04n_match_equiv_o0, 12, None, 0);
+k04n!(k04n_match_equiv_o1, 12, None, 1);
+k04n!(k04n_hops_equiv, 12, None, 2);
+k04n!(k04n_hop_match_equiv, 12, None, 3);
+k04n!(k04n_match_equiv_o0_far, 258, Some(252), 0);
+k04n!(k04n_match_equiv_o1_far, 258, Some(251), 1);
+k04n!(k04n_hops_equiv_far, 258, Some(252), 2);
